@@ -80,7 +80,14 @@ def sig_class_away_warnings(case, issue):
     if len(extra) != 1:
         return False
     e = extra[0].split("~")
-    return e[0] == key and e[1] == "Warning" and e[2] == "Rejected" and "validation-error" not in e[3] and e[3] != ""
+    if e[0] != key or e[1] != "Warning" or "validation-error" in e[3]:
+        return False
+    if " fail=1 " in case.get("line", ""):
+        # the same finding while the apply fails: the event becomes RejectedWithError and the error text is appended to the stale
+        # warnings; an event that carries ONLY the error (no stale warning) is not this finding
+        stale = [c for c in e[3].split("+") if c and not c.startswith("other:but_was_not_applied")]
+        return e[2] in ("Rejected", "RejectedWithError") and bool(stale)
+    return e[2] == "Rejected" and e[3] != ""
 
 
 SIGNATURES = {"class-away-delete-carries-old-warnings": sig_class_away_warnings}
@@ -120,8 +127,12 @@ def gen_class_flip(rng):
 
 def gen(rng, tier):
     cases = []
-    for _ in range(200 if tier == "quick" else 2000):
+    for i in range(200 if tier == "quick" else 2000):
         cases.append(dict(line=gen_class_flip(rng), tags=["class-flip"]))
+        if i % 3 == 0:
+            # the same kind of history while every apply fails (the NGINX reload returns an error): whatever is reported about the
+            # controller's own resources, a resource that went to another class must still not be touched
+            cases.append(dict(line=gen_class_flip(rng).replace(" ops=", " fail=1 ops="), tags=["class-flip-apply-fails"]))
     for kind in ("ing", "vs", "vsr", "ts", "pol", "other"):
         for ann in ("-", "_", "nginx", "other"):
             for field in ("-", "_", "nginx", "other"):
@@ -212,7 +223,7 @@ def run_cases(cases, bins, res, tier, broken):
         issue = compare_pair(c["line"], impl, pimpl)
         if issue:
             res["spec_bad"].append((dict(line=c["line"]), issue))
-        elif impl != model:
+        elif impl != model and " fail=1 " not in c["line"]:      # the model knows no apply faults: those lines are judged by the pair only
             res["corr_bad"].append((dict(line=c["line"]), arbprop.first_diff(impl, model)))
 
 
